@@ -62,7 +62,7 @@ func ZZ_C18_S1_split() {
 // Stream.handlePacket, deliver exactly m1 then m2 to the inbox - whole, unmodified, separate - and
 // leave the assembler empty. Packet boundaries are the real split() with a symbolic chunk size.
 //
-//zz:harness unwind=40 panic=violation:S2.nopanic
+//zz:harness unwind=40 panic=violation:S2.nopanic param.msglen@thorough=7 param.maxlim@thorough=4
 //zz:reach S2.done
 func ZZ_C18_S2_reassembly() {
 	m1, m2 := zzMsg("m1", zzParam("msglen", 5)), zzMsg("m2", zzParam("msglen", 5))
@@ -114,7 +114,7 @@ func ZZ_C18_S2b_delivered_message_is_stable() {
 // m3 of the same peer on the same topic must arrive whole and alone - no byte of the dropped m2 may
 // be glued in front of it - and the assembler is empty after every completed message.
 //
-//zz:harness unwind=40 panic=violation:S2.nopanic
+//zz:harness unwind=40 panic=violation:S2.nopanic param.msglen@thorough=6 param.maxlim@thorough=4
 //zz:reach S2c.done
 func ZZ_C18_S2c_dropped_message_leaves_no_residue() {
 	n := zzParam("msglen", 4)
